@@ -158,8 +158,8 @@ def check_config(ctx, F, tag):
             elif cn == RB + "::set_run_unchecked":
                 st_, ln = b.term_of_operand(t["args"][1]), b.term_of_operand(t["args"][2])
                 g1 = any(f[0] == "cmp" and f[1] == "Ge" and core(f[2]) == core(st_) and m(Call(RB + "::len", Param(0)), f[3]) for f in fs)
-                g2 = any(f[0] == "cmp" and f[1] == "Ge" and m(Bin("Sub", Const(2 ** 64 - 1), ANY), f[2]) and
-                         {core(f[3]), core(f[2][2] if False else strip_casts(f[2])[3])} == {core(st_), core(ln)} for f in fs)
+                from guards import fact_add_fits
+                g2 = fact_add_fits(fs, core(st_), core(ln))
                 ctx.ob("C16.R2.unchecked-call-discharged", key + tag, where, g1 and g2, "guard-dominance",
                        "set_run_unchecked(%s, %s) dominated by start >= len(): %s, usize::MAX - len >= start: %s" % (tstr(st_), tstr(ln), g1, g2))
             else:
